@@ -162,6 +162,10 @@ var outcomeShort = [...]string{"ok", "err", "perm", "wrongtype", "overrun"}
 type Step struct {
 	O    Outcome `json:"o"`
 	Gate int     `json:"gate,omitempty"`
+	// SlowMs: the invocation works this long (honouring its context) before it delivers its outcome.
+	SlowMs int `json:"slow_ms,omitempty"`
+	// LateMs (with OOverrun): the plugin ignores cancellation and answers ok this long after its deadline.
+	LateMs int `json:"late_ms,omitempty"`
 }
 
 // Script of one action: per RUN of the action (check actions of a continuous group run many times, everything
@@ -174,6 +178,12 @@ func (s Script) String() string {
 		var xs []string
 		for _, st := range run {
 			x := outcomeShort[st.O]
+			if st.LateMs != 0 {
+				x = fmt.Sprintf("%s+answers-ok-%dms-late", x, st.LateMs)
+			}
+			if st.SlowMs != 0 {
+				x = fmt.Sprintf("slow%dms>%s", st.SlowMs, x)
+			}
 			if st.Gate != 0 {
 				x = fmt.Sprintf("hold%d>%s", st.Gate, x)
 			}
